@@ -1889,6 +1889,29 @@ fn corrupt(r: &mut Rng, img: &mut [u8], spec_img: &crate::elfgen::ElfImage) -> S
     label
 }
 
+/// The text of a mapped file made inaccessible to the target itself from its second page on
+/// (`mprotect(PROT_NONE)`; the pages stay where they are): a read that starts in the first page and
+/// runs on comes back short from `process_vm_readv` and has to be completed another way.
+fn text_tail_inaccessible(regions: &mut Vec<RegionSpec>, name: &[u8]) -> bool {
+    let Some(i) = regions.iter().position(|g| g.name.0 == name && g.perms == "r-xp" && g.len >= 0x2000 && matches!(g.content, Content::Bytes(_))) else {
+        return false;
+    };
+    let mut tail = regions[i].clone();
+    let Content::Bytes(B(all)) = &regions[i].content else {
+        return false;
+    };
+    let (head_bytes, tail_bytes) = (all[..0x1000].to_vec(), all[0x1000..].to_vec());
+    regions[i].len = 0x1000;
+    regions[i].content = Content::Bytes(B(head_bytes));
+    tail.start += 0x1000;
+    tail.len -= 0x1000;
+    tail.offset += 0x1000;
+    tail.perms = "---p".into();
+    tail.content = Content::Bytes(B(tail_bytes));
+    regions.insert(i + 1, tail);
+    true
+}
+
 fn gen_c14(r: &mut Rng, seed: u64) -> Scenario {
     let mut b = build_world(r, &plain_cfg(1, 0));
     b.world.fds.clear();
@@ -1932,6 +1955,9 @@ fn gen_c14(r: &mut Rng, seed: u64) -> Scenario {
         spec.link_base = 0x20_0000;
         spec.force_dyn = true;
         tags.push("nonzero-link-base".into());
+    }
+    if spec.small_align {
+        tags.push("first-segment-unaligned".into());
     }
     let img = crate::elfgen::build(&spec);
     let base = if non_pie { 0x40_0000 } else { LIB_BASE + 0x4000_0000 };
@@ -1988,6 +2014,9 @@ fn gen_c14(r: &mut Rng, seed: u64) -> Scenario {
         });
     }
     b.world.regions.sort_by_key(|x| x.start);
+    if r.chance(1, 5) && text_tail_inaccessible(&mut b.world.regions, path.as_bytes()) {
+        tags.push("text-tail-inaccessible".into());
+    }
     let mut use_path = B::s(path);
     if r.chance(1, 12) {
         use_path = B::s("/opt/c14/missing.so");
@@ -2070,6 +2099,59 @@ fn gen_c08(r: &mut Rng, seed: u64) -> Scenario {
             push_tags(&mut tags, &["deleted"]);
         }
     }
+    // a library whose parts before the loader's reserved gap are not executable (an image mapped for
+    // reading; text made non-executable): the gap is then only "between two parts of" the file, never
+    // "directly after an executable mapping".
+    if r.chance(1, 3) {
+        for mi in 1..nmods {
+            let (base, img_gap, data_off) = (b.modules[mi].base, b.modules[mi].image.data_vaddr > b.modules[mi].image.data_off, b.modules[mi].image.data_off);
+            if !img_gap || !r.coin() {
+                continue;
+            }
+            let p = b.modules[mi].path.clone();
+            for reg in b.world.regions.iter_mut() {
+                if reg.name.0 == p.as_bytes() && reg.start >= base && reg.start < base + data_off && reg.perms == "r-xp" {
+                    reg.perms = "r--p".into();
+                }
+            }
+            push_tags(&mut tags, &["gap-after-non-exec"]);
+            break;
+        }
+    }
+    if r.chance(1, 4) {
+        for mi in 1..nmods {
+            let p = b.modules[mi].path.clone();
+            if r.coin() && text_tail_inaccessible(&mut b.world.regions, p.as_bytes()) {
+                push_tags(&mut tags, &["text-tail-inaccessible"]);
+                break;
+            }
+        }
+    }
+    // a replaced library: the old file (now deleted) is still mapped, none of its parts executable, an
+    // inaccessible page follows it, and the new file of the same path is mapped right behind that
+    if r.chance(1, 8) {
+        for mi in 1..nmods {
+            let (base, p) = (b.modules[mi].base, b.modules[mi].path.clone());
+            let live = b.world.files.iter().any(|f| f.path.0 == p.as_bytes()) && b.world.regions.iter().any(|g| g.start == base && g.name.0 == p.as_bytes() && !g.deleted);
+            let old = crate::elfgen::build(&crate::gen::lib_spec(r, false, 70 + mi));
+            let obase = base - 0x1000 - old.mapped_len;
+            if !live || b.world.regions.iter().any(|g| g.start < base && obase - 0x1000 < g.end()) {
+                continue;
+            }
+            let mem = old.file.clone();
+            crate::gen::elf_regions(&p, obase, &old, 4242, &mem, &mut b.world.regions);
+            for g in b.world.regions.iter_mut().filter(|g| g.inode == 4242) {
+                g.deleted = true;
+                if g.perms == "r-xp" {
+                    g.perms = "r--p".into();
+                }
+            }
+            b.world.regions.push(RegionSpec { start: base - 0x1000, len: 0x1000, perms: "---p".into(), offset: 0, inode: 0, name: B(Vec::new()), deleted: false, content: Content::Zero });
+            b.world.regions.sort_by_key(|g| g.start);
+            push_tags(&mut tags, &["old-image-gap-replacement"]);
+            break;
+        }
+    }
     // the same file mapped a second time elsewhere (two separate groups of the same name)
     if b.modules.len() > 1 && r.chance(1, 5) {
         let m = &b.modules[1 + r.below(b.modules.len() as u64 - 1) as usize];
@@ -2101,7 +2183,7 @@ fn gen_c08(r: &mut Rng, seed: u64) -> Scenario {
     }
     // a library whose section table is not mapped and whose note is only in a section
     if r.chance(1, 3) {
-        let spec = crate::elfgen::ElfSpec { build_id: Some(r.bytes(20)), note_in_phdr: false, soname: Some("libfileonly.so.2".into()), sections: true, text_pages: 1, text_seed: r.next(), dt_debug: false, dyn_pad: 0, with_pt_phdr: false, sections_at_end: true, rodata_before_text: false, data_gap_pages: 0, link_base: 0, text_sec_skip: 0, moved_tables: false, force_dyn: false, note_name_last: false };
+        let spec = crate::elfgen::ElfSpec { build_id: Some(r.bytes(20)), note_in_phdr: false, soname: Some("libfileonly.so.2".into()), sections: true, text_pages: 1, text_seed: r.next(), dt_debug: false, dyn_pad: 0, with_pt_phdr: false, sections_at_end: true, rodata_before_text: false, data_gap_pages: 0, link_base: 0, text_sec_skip: 0, moved_tables: false, force_dyn: false, note_name_last: false, small_align: false };
         let img = crate::elfgen::build(&spec);
         let base = LIB_BASE + 0x5000_0000;
         let path = "/usr/lib/libfileonly.so.2.0";
@@ -2118,7 +2200,7 @@ fn gen_c08(r: &mut Rng, seed: u64) -> Scenario {
     }
     // a library embedded in an archive: executable mapping from a non-zero file offset
     if r.chance(1, 3) {
-        let spec = crate::elfgen::ElfSpec { build_id: Some(r.bytes(20)), note_in_phdr: true, soname: Some("libembedded.so".into()), sections: r.coin(), text_pages: 1, text_seed: r.next(), dt_debug: false, dyn_pad: 0, with_pt_phdr: false, sections_at_end: false, rodata_before_text: false, data_gap_pages: 0, link_base: 0, text_sec_skip: 0, moved_tables: false, force_dyn: false, note_name_last: false };
+        let spec = crate::elfgen::ElfSpec { build_id: Some(r.bytes(20)), note_in_phdr: true, soname: Some("libembedded.so".into()), sections: r.coin(), text_pages: 1, text_seed: r.next(), dt_debug: false, dyn_pad: 0, with_pt_phdr: false, sections_at_end: false, rodata_before_text: false, data_gap_pages: 0, link_base: 0, text_sec_skip: 0, moved_tables: false, force_dyn: false, note_name_last: false, small_align: false };
         let img = crate::elfgen::build(&spec);
         let base = LIB_BASE + 0x6000_0000;
         let path = "/data/app/base.apk";
@@ -2134,7 +2216,7 @@ fn gen_c08(r: &mut Rng, seed: u64) -> Scenario {
     // a statically linked, non-position-independent program image: every virtual address in it is
     // absolute (link base 0x400000) and differs from the file offset
     if r.chance(1, 3) {
-        let spec = crate::elfgen::ElfSpec { build_id: Some(r.bytes(20)), note_in_phdr: true, soname: None, sections: r.coin(), text_pages: 1, text_seed: r.next(), dt_debug: false, dyn_pad: 0, with_pt_phdr: true, sections_at_end: false, rodata_before_text: false, data_gap_pages: 0, link_base: 0x40_0000, text_sec_skip: 0, moved_tables: false, force_dyn: r.coin(), note_name_last: false };
+        let spec = crate::elfgen::ElfSpec { build_id: Some(r.bytes(20)), note_in_phdr: true, soname: None, sections: r.coin(), text_pages: 1, text_seed: r.next(), dt_debug: false, dyn_pad: 0, with_pt_phdr: true, sections_at_end: false, rodata_before_text: false, data_gap_pages: 0, link_base: 0x40_0000, text_sec_skip: 0, moved_tables: false, force_dyn: r.coin(), note_name_last: false, small_align: false };
         let img = crate::elfgen::build(&spec);
         let base = 0x40_0000u64;
         let path = "/opt/tools/static-helper";
@@ -2157,7 +2239,7 @@ fn gen_c08(r: &mut Rng, seed: u64) -> Scenario {
         push_tags(&mut tags, &["non-elf"]);
     }
     if r.chance(1, 4) {
-        let spec = crate::elfgen::ElfSpec { build_id: Some(vec![0u8; 20]), note_in_phdr: true, soname: None, sections: true, text_pages: 1, text_seed: 5, dt_debug: false, dyn_pad: 0, with_pt_phdr: false, sections_at_end: false, rodata_before_text: false, data_gap_pages: 0, link_base: 0, text_sec_skip: 0, moved_tables: false, force_dyn: false, note_name_last: false };
+        let spec = crate::elfgen::ElfSpec { build_id: Some(vec![0u8; 20]), note_in_phdr: true, soname: None, sections: true, text_pages: 1, text_seed: 5, dt_debug: false, dyn_pad: 0, with_pt_phdr: false, sections_at_end: false, rodata_before_text: false, data_gap_pages: 0, link_base: 0, text_sec_skip: 0, moved_tables: false, force_dyn: false, note_name_last: false, small_align: false };
         let img = crate::elfgen::build(&spec);
         let base = LIB_BASE + 0x7000_0000;
         let path = "/usr/lib/libzeroid.so";
@@ -2919,11 +3001,30 @@ fn gen_over_4gib(r: &mut Rng, prop: &str, seed: u64) -> Scenario {
     sc
 }
 
+/// A dump with one flush of more than 1 GiB (a thread running at the low end of a mapping of 1 GiB
+/// and a few pages): an image the format can describe, handed to the destination in one piece.
+fn gen_over_1gib(r: &mut Rng, prop: &str, seed: u64) -> Scenario {
+    let n = 2usize;
+    let mut cfg = plain_cfg(n, 0);
+    cfg.nfds = 1;
+    let mut b = build_world(r, &cfg);
+    let start = b.add_anon((1 << 30) + 0x1000 * r.range(1, 5), "rw-p", 0, 1);
+    if let Some(g) = b.world.regions.iter_mut().find(|g| g.start == start) {
+        g.content = Content::Zero;
+    }
+    b.world.threads[1].regs[R_RSP] = start + 0x100 + 8 * r.below(64);
+    let opts = Opts { blamed: PID, ..Default::default() };
+    let mut sc = simple_dump_scenario(prop, seed, "over-1gib", b, opts);
+    sc.tags = vec!["over-1gib".into()];
+    sc
+}
+
 pub fn generate(prop: &str, verif_seed: u64, idx: u64) -> Scenario {
     let seed = derive_seed(verif_seed, prop, idx);
     let mut r = Rng::new(seed);
     match prop {
-        "C01" if idx == 16 => gen_over_4gib(&mut r, prop, seed),
+        "C01" | "C10" if idx == 16 => gen_over_4gib(&mut r, prop, seed),
+        "C01" | "C09" | "C10" if idx == 17 => gen_over_1gib(&mut r, prop, seed),
         "C01" => {
             let benign = idx % 2 == 1;
             let mut sc = rich_dump(&mut r, prop, seed, if benign { "c01-benign-faults" } else { "c01-clean" }, benign).0;
